@@ -171,23 +171,28 @@ def pure_helper_resolver(pkg, cls):
         if name not in folded:
             folded[name] = inline_constants(_copy.deepcopy(f), _pkg, cls)
         f = folded[name]
-        ps = {a.arg for a in f.args.args + f.args.kwonlyargs}
-        for n in ast.walk(f):
-            if isinstance(n, ast.Call) and isinstance(n.func, ast.Attribute) and n.func.attr in _MUTATORS:
-                b = n.func.value
+        return f if _leaves_arguments_alone(f) else None
+    return resolver
+
+
+def _leaves_arguments_alone(f) -> bool:
+    """no in-place edit (mutator call, subscript / attribute store, del) of something reached through a parameter of `f`"""
+    ps = {a.arg for a in f.args.args + f.args.kwonlyargs}
+    for n in ast.walk(f):
+        if isinstance(n, ast.Call) and isinstance(n.func, ast.Attribute) and n.func.attr in _MUTATORS:
+            b = n.func.value
+            while isinstance(b, (ast.Attribute, ast.Subscript)):
+                b = b.value
+            if isinstance(b, ast.Name) and b.id in ps:
+                return False
+        if isinstance(n, (ast.Assign, ast.AugAssign, ast.AnnAssign, ast.Delete)):
+            for t in (n.targets if isinstance(n, (ast.Assign, ast.Delete)) else [n.target]):
+                b = t
                 while isinstance(b, (ast.Attribute, ast.Subscript)):
                     b = b.value
-                if isinstance(b, ast.Name) and b.id in ps:
-                    return None
-            if isinstance(n, (ast.Assign, ast.AugAssign, ast.AnnAssign, ast.Delete)):
-                for t in (n.targets if isinstance(n, (ast.Assign, ast.Delete)) else [n.target]):
-                    b = t
-                    while isinstance(b, (ast.Attribute, ast.Subscript)):
-                        b = b.value
-                    if b is not t and isinstance(b, ast.Name) and b.id in ps:
-                        return None
-        return f
-    return resolver
+                if b is not t and isinstance(b, ast.Name) and b.id in ps:
+                    return False
+    return True
 
 
 class OdeModel:
@@ -224,7 +229,20 @@ class OdeModel:
         func = inline_constants(_copy.deepcopy(self.func), pkg, "TemplateLoader")
         # a generator method that hands records to a consuming loop (`for rec in self._iter_terms(..): rhs[rec.row] += ..`) is put
         # back in place, and a namedtuple / dataclass that only carries the values across is replaced by its fields
-        from .normalize import inline_generator_loops, scalarise_records
+        from .normalize import inline_generator_loops, scalarise_records, scalarise_objects
+
+        def _class_of(e, _pkg=pkg):
+            # a plain helper class of this module (`_Table(..)`) or one nested in TemplateLoader (`self._Table(..)`)
+            ci = None
+            if isinstance(e, ast.Name):
+                ci = _pkg.classes.get(e.id)
+            elif isinstance(e, ast.Attribute) and isinstance(e.value, ast.Name) and e.value.id in ("self", "cls", "TemplateLoader"):
+                ci = _pkg.classes.get("TemplateLoader." + e.attr)
+            if ci is None or ci.file != FILE:
+                return None
+            return inline_constants(_copy.deepcopy(ci.node), _pkg, "TemplateLoader")
+        # a local helper object that only carries the tables and the statements filling them is read as those statements
+        func = scalarise_objects(func, _class_of)
         func = inline_generator_loops(func, _stmt_resolver)
         func = scalarise_records(func, lambda name, _pkg=pkg: record_fields(_pkg, name))
         func = inline_stmt_calls(func, _stmt_resolver)
@@ -239,7 +257,11 @@ class OdeModel:
         # one loop over a concatenation (`for sign, i in chain(zip(repeat(" - "), R), zip(repeat(" + "), P))`) is the loops it abbreviates
         from .normalize import split_concat_loops
         func = split_concat_loops(func)
-        self.flow = Flow(func, FILE, proc_resolver=_resolver, resolver=_pure_resolver, records=pkg.records())
+        # ... and a small pure helper FUNCTION of the module, called by its bare name (`_wrap(expr)`), is the value it returns as well
+        def _func_resolver(name, _pkg=pkg):
+            f = _pkg.functions.get((FILE, name))
+            return _fold(f) if f is not None and _leaves_arguments_alone(f) else None
+        self.flow = Flow(func, FILE, proc_resolver=_resolver, resolver=_pure_resolver, func_resolver=_func_resolver, records=pkg.records())
         fl = self.flow
         self._expand_built_lists(fl)
         self._index_slice_loops(fl)
